@@ -8,6 +8,7 @@ from unittest import mock
 from . import REPLAY, skip
 
 HOME = "/home/u"
+_REAL_CLOSE, _REAL_WRITE, _REAL_FDOPEN = os.close, os.write, os.fdopen
 
 
 # --------------------------------------------------------------------------- FakeFS
@@ -15,12 +16,23 @@ class _Reader:
     def __init__(self, data):
         self._data = data
         self._done = False
+        self._pos = 0
 
     def read(self, n=-1):
+        """whole remaining content, or at most n bytes of it (like a real file object)"""
+        empty = "" if isinstance(self._data, str) else b""
         if self._done:
-            return b"" if isinstance(self._data, (bytes, bytearray)) or not isinstance(self._data, str) else ""
-        self._done = True
-        return self._data
+            return empty
+        if n is None or n < 0:
+            self._done = True
+            if self._pos == 0:
+                return self._data
+            return self._data[self._pos:]
+        chunk = self._data[self._pos:self._pos + n]
+        self._pos += n
+        if self._pos >= len(self._data):
+            self._done = True
+        return chunk
 
     def close(self):
         pass
@@ -72,6 +84,7 @@ class FakeFS:
         self.unreadable = set(unreadable)
         self.opens: List[Tuple[str, str]] = []
         self.writes: List[str] = []
+        self._fds: Dict[int, str] = {}
 
     # -- the patched entry points
     def open(self, path, mode="r", *a, **kw):
@@ -111,9 +124,53 @@ class FakeFS:
             return HOME + p[1:]
         return p
 
+    # -- low-level file descriptors (os.open & co.)
+    def os_open(self, path, flags, mode=0o777, *a, **kw):
+        path = os.fspath(path)
+        writing = bool(flags & (os.O_WRONLY | os.O_RDWR))
+        m = ("w" if writing else "r") + ("+" if flags & os.O_RDWR else "") + ("t" if flags & os.O_TRUNC else "")
+        self.opens.append((path, "os.open:" + m))
+        exists = path in self.files
+        if not exists:
+            if not flags & os.O_CREAT:
+                raise FileNotFoundError(2, "No such file or directory", path)
+            d = os.path.dirname(path) or "/"
+            if d not in self.dirs:
+                raise FileNotFoundError(2, "No such file or directory", path)
+            if d in self.unwritable_dirs:
+                raise PermissionError(13, "Permission denied", path)
+            self.files[path] = b""
+            self.writes.append(path)
+        elif flags & os.O_TRUNC and writing:
+            self.files[path] = b""
+            self.writes.append(path)
+        fd = 1000 + len(self._fds)
+        self._fds[fd] = path
+        return fd
+
+    def os_close(self, fd):
+        if fd in self._fds:
+            return None
+        return _REAL_CLOSE(fd)
+
+    def os_write(self, fd, data):
+        if fd in self._fds:
+            self.files[self._fds[fd]] = self.files.get(self._fds[fd], b"") + data
+            return len(data)
+        return _REAL_WRITE(fd, data)
+
+    def os_fdopen(self, fd, mode="r", *a, **kw):
+        if fd in self._fds:
+            return self.open(self._fds[fd], mode)
+        return _REAL_FDOPEN(fd, mode, *a, **kw)
+
     @contextlib.contextmanager
     def patched(self):
         with mock.patch.object(builtins, "open", self.open), \
+                mock.patch.object(os, "open", self.os_open), \
+                mock.patch.object(os, "close", self.os_close), \
+                mock.patch.object(os, "write", self.os_write), \
+                mock.patch.object(os, "fdopen", self.os_fdopen), \
                 mock.patch.object(os.path, "exists", self.exists), \
                 mock.patch.object(os.path, "isfile", self.isfile), \
                 mock.patch.object(os.path, "isdir", self.isdir), \
